@@ -23,7 +23,7 @@ A_CONST = "callee contract: util::is_jsx_attr_value_constant replaced by an orac
 ISCONST = ["isconst_k0_w0", "isconst_k1_w0", "isconst_k2_w0", "isconst_k3_w0", "isconst_k4_w0", "isconst_k5_w0", "isconst_k6_w0",
            "isconst_k0_w1", "isconst_k1_w1", "isconst_k3_w1", "isconst_k5_w1", "isconst_k0_w2", "isconst_k1_w2", "isconst_k4_w2",
            "isconst_k0_w3", "isconst_k1_w3", "isconst_k2_w3", "isconst_k6_w3", "isconst_k3_w4", "isconst_k3_w5", "isconst_value_kinds"]
-ISCONST_Q = ["isconst_k0_w0", "isconst_k1_w0", "isconst_k2_w0", "isconst_k3_w0", "isconst_k5_w0", "isconst_k1_w1", "isconst_k3_w1", "isconst_k0_w3", "isconst_k3_w4", "isconst_value_kinds"]
+ISCONST_Q = ["isconst_k0_w0", "isconst_k1_w0", "isconst_k2_w0", "isconst_k3_w0", "isconst_k5_w0", "isconst_k1_w1", "isconst_k3_w1", "isconst_k3_w4", "isconst_value_kinds"]
 PLAIN = ["attr_class_dyn", "attr_style_dyn", "attr_key_dyn", "attr_ref_dyn", "attr_on_dyn", "attr_nativeon_dyn", "attr_onclick_camel_dyn",
          "attr_onclick_lower_dyn", "attr_onfoo_dyn", "attr_onupdate_dyn", "attr_id_dyn", "attr_id_bool", "attr_id_str", "attr_class_str", "attr_onfoo_bool"]
 DARM = ["darm_normal", "darm_html", "darm_text", "darm_vmodel_plain", "darm_vmodel_strarg", "darm_vmodel_computed", "darm_vmodel_nullarg", "darm_slots_some", "darm_slots_none"]
@@ -137,15 +137,20 @@ UNITS += [
 
 CHILDREN = ["children_none", "children_text", "children_expr", "children_empty_expr", "children_text_expr", "children_expr_empty", "children_text_bound_ident",
             "children_text_unbound_ident", "children_spread_text", "children_bound_spread_text"]
-CHILDREN_Q = ["children_none", "children_text", "children_empty_expr", "children_text_bound_ident"]
+CHILDREN_Q = ["children_none", "children_empty_expr", "children_text_bound_ident"]
 UNITS += [
     U("U-children", ["VueJsxTransformVisitor::transform_children", "VueJsxTransformVisitor::wrap_children", "VueJsxTransformVisitor::transform_jsx_text"], CHILDREN_Q, ["C02", "C13"], completeness="bounded",
-      domain="child lists {none, text, empty expression, text + bound identifier} x symbolic host kind and options", mem_gb=10, timeout=1500,
+      domain="child lists {none, empty expression, text + bound identifier} x symbolic host kind and options", mem_gb=10, timeout=1500,
       unwindset={"memcmp.0": 16}, assumes=[A_DROP, A_CLONE, A_TT, A_FMT]),
     U("U-children-more", ["VueJsxTransformVisitor::transform_children", "VueJsxTransformVisitor::wrap_children"], [h for h in CHILDREN if h not in CHILDREN_Q], ["C02", "C13"], completeness="bounded", tier="thorough",
       domain="remaining child lists of length <= 2 (expression, text + expression, expression + empty, unbound identifier, spread)", mem_gb=12, timeout=2400, unwindset={"memcmp.0": 16}, assumes=[A_DROP, A_CLONE, A_TT, A_FMT]),
     U("U-slotflag-stack", ["VueJsxTransformVisitor::transform_children"], ["slot_flag_stack_fill"], ["C13"], completeness="bounded", tier="thorough", domain="two enclosing elements, bound identifier child", mem_gb=12, timeout=2400,
       unwindset={"memcmp.0": 16}, assumes=[A_DROP, A_CLONE, A_TT, A_FMT]),
+]
+
+UNITS += [
+    U("U-dedupe", ["util::dedupe_props"], ["dedupe_class_twice", "dedupe_listener_around_other", "dedupe_plain_twice", "dedupe_distinct", "dedupe_across_spread", "dedupe_class_thrice"], ["C01"], completeness="bounded",
+      domain="prop lists of length 2..3: repeated class / listener / ordinary key, distinct keys, a spread in between", mem_gb=8, timeout=900, unwindset={"memcmp.0": 12}, assumes=[A_DROP, A_CLONE]),
 ]
 
 CANARY = dict(harness="canary_must_fail", timeout=300, mem_gb=4)
